@@ -375,7 +375,13 @@ def apiClose (w : σ) (h : Handle) : Int × Handle × List Event × σ :=
 
 /-- `_archive_write_free`: the status it returns (the handle is gone afterwards). -/
 def apiFree (w : σ) (h : Handle) : Int × Handle × List Event × σ :=
-  if h.state ≠ .fatal then apiClose W w h else (ok, h, [], w)
+  if h.state ≠ .fatal then apiClose W w h
+  else
+    -- "(void)__archive_write_filters_close(a);": a failed archive is not finished off, but the
+    -- filters that are still open are closed (which flushes what they hold and releases their
+    -- buffers and the client's output stream); the status of that close is not reported
+    let r := filtersClose W w h
+    (ok, r.2.1, r.2.2.1, r.2.2.2)
 
 end
 
